@@ -2119,15 +2119,18 @@ func (f *fragment) bulkImportMutex(rowIDs, columnIDs []uint64) error {
 	// repeated within the import.
 	colSet := make(map[uint64]uint64)
 
-	// Since each imported bit will at most set one bit and clear one bit, we
-	// can reuse the rowIDs and columnIDs slices as the set and clear slice
-	// arguments to importPositions. The set positions we'll get from the
-	// colSet, but we maintain clearIdx as we loop through row and col ids so
-	// that we know how many bits we need to clear and how far through columnIDs
-	// we are.
-	clearIdx := 0
-	for i := range rowIDs {
+	// Only the last write to a column within the batch counts, so walk the
+	// batch backwards and skip columns that were already decided. Positions to
+	// clear are collected separately: the batch is read back to front, so the
+	// input slices cannot be reused as output while iterating.
+	seen := make(map[uint64]struct{})
+	toClear := make([]uint64, 0, len(columnIDs))
+	for i := len(rowIDs) - 1; i >= 0; i-- {
 		rowID, columnID := rowIDs[i], columnIDs[i]
+		if _, ok := seen[columnID]; ok {
+			continue
+		}
+		seen[columnID] = struct{}{}
 		if existingRowID, found, err := f.mutexVector.Get(columnID); err != nil {
 			return errors.Wrap(err, "getting mutex vector data")
 		} else if found && existingRowID != rowID {
@@ -2136,8 +2139,7 @@ func (f *fragment) bulkImportMutex(rowIDs, columnIDs []uint64) error {
 			if err != nil {
 				return err
 			}
-			columnIDs[clearIdx] = clearPos
-			clearIdx++
+			toClear = append(toClear, clearPos)
 
 			rowSet[existingRowID] = struct{}{}
 		} else if found && existingRowID == rowID {
@@ -2158,7 +2160,6 @@ func (f *fragment) bulkImportMutex(rowIDs, columnIDs []uint64) error {
 		i++
 	}
 	toSet := rowIDs[:i]
-	toClear := columnIDs[:clearIdx]
 
 	return errors.Wrap(f.importPositions(toSet, toClear, rowSet), "importing positions")
 }
